@@ -82,7 +82,7 @@ def replay (hist : String) : Except String DB :=
 statement walks) is decided on the tables the MODEL builds from the recorded history, so a change
 in how the code assigns rowids is not absorbed by the classifier; `B` says whether those tables
 are the dumped ones (as far as a scan can tell). -/
-def judge (line : String) : String :=
+def judgeWith (replayF : String → Except String DB) (line : String) : String :=
   let parts := line.splitOn " | "
   match parts.take 5, parts.drop 5 with
   | [hdr, preS, reqS, loopS, iterS], rest =>
@@ -94,7 +94,7 @@ def judge (line : String) : String :=
         let m := model == loopRes && model == iterRes
         let s := isPermB loopRes all && isPermB iterRes all
         let (bv, kids) := match rest with
-          | [hist] => (match replay hist with
+          | [hist] => (match replayF hist with
             | .ok mdb => ((if decide (shape mdb = shape db) then "1" else "0"), (expected q now mdb).2.2)
             | .error _ => ("E", ids))
           | _ => ("-", ids)
@@ -108,5 +108,13 @@ def judge (line : String) : String :=
       | none, _, _, _, _ => s!"{seq} ERR now"
     | _ => "? ERR bad scan header"
   | _, _ => s!"? ERR bad scan line ({parts.length} parts)"
+
+def judge (line : String) : String := judgeWith replay line
+
+/-- the history field of a SCAN line (the sixth), if present -/
+def historyOf (line : String) : Option String :=
+  match (line.splitOn " | ").drop 5 with
+  | [h] => some h
+  | _ => none
 
 end Redka.ScanJudge
